@@ -27,8 +27,9 @@ from cnfgen.formula.cnf import CNF
 from cnfgen.formula.opb import OPB
 from cnfgen.formula.baseopb import BaseOPB
 
-SUITES = ("o_op", "o_gop", "o_peb", "o_stone", "o_sstone", "o_pymode")
+SUITES = ("o_op", "o_gop", "o_peb", "o_stone", "o_sstone", "o_pymode", "o_reuse")
 MODE_SUITE = "o_pymode"      # the same cases answered by a child interpreter running with -O / -OO
+REUSE_SUITE = "o_reuse"      # graph argument objects used, edited in place, used again (common.reuse_cases)
 TT_VARS = 12          # truth-table bound
 DPLL_VARS = 160       # DPLL bound
 DPLL_BUDGET = 60000   # DPLL node budget (exceeded => no verdict, never an alarm)
@@ -37,7 +38,12 @@ RULE = ("ordering: sizes 0..7 x {plain,total,smart} x plant x knuth {0,2,3} x bo
         "graph ordering: empty/path/cycle/star/complete/disconnected/random graphs on 0..7 vertices x all flag combinations; "
         "pebbling/stone/sparse stone: single vertex, paths, binary trees, pyramids, random topologically ordered DAGs, several "
         "sources/sinks, isolated vertices, non-DAG inputs (rejected), stone counts 0..4, complete/random/deficient availability "
-        "graphs, left-side mismatch (rejected); distinct = distinct request line; non-trivial = at least one vertex")
+        "graphs, left-side mismatch (rejected); o_reuse: histories in which ONE graph / DAG object (and the availability graph of "
+        "the sparse stone formula; cnfgen objects and networkx objects with odd labels) is handed to graph ordering (all variants, "
+        "planted included) / pebbling / stone / sparse stone 3-5 times while its owner edits it in place between the calls (edge "
+        "rewired, degree-preserving switch, labels exchanged, vertex moved to the other side, an edge reversed: vertex and edge "
+        "counts unchanged; sometimes grown), each formula compared and judged on the value the object has at that moment; "
+        "distinct = distinct request line; non-trivial = at least one vertex")
 ASSUMPTIONS = ["graph arguments are cnfgen Graph/DirectedGraph/BipartiteGraph objects built through add_edge "
                "(networkx inputs go through normalize, property C16/C14)"]
 NOTES = ["oracle verdicts: truth table <= {} variables, DPLL <= {} variables with node budget {}".format(
@@ -459,11 +465,18 @@ def meddle_with_factory_graphs(n):
                 pass
 
 
-def build(suite, info):
+def build(suite, info, args=None):
+    """args: {slot: thunk} -- the caller's own (live) graph objects instead of ones made from info; slot "g" = the graph /
+    DAG argument, slot "b" = the stone availability graph of the sparse stone formula"""
     if suite not in SUITES:
         raise ValueError("unknown suite " + suite)
     if suite == MODE_SUITE:
         return common.mode_build(__name__, build, MODE_SUITE, info)
+    if suite == REUSE_SUITE:
+        return common.reuse_cases(info["hist"], build, REUSE_SUITE)[info["step"]]
+
+    def live(slot, fresh):
+        return args[slot]() if (args is not None and slot in args) else fresh()
     opb = bool(info.get("opb", False))
     fc = OPB if opb else CNF
     cls_i = 1 if opb else 0
@@ -471,6 +484,7 @@ def build(suite, info):
 
     def run(thunk):
         def impl():
+            state.pop("F", None)
             try:
                 F = thunk()
             except Exception as e:
@@ -503,7 +517,7 @@ def build(suite, info):
         n = int(info["n"])
         edges = [tuple(e) for e in info["edges"]]
         r = req("c03_gop", cls_i, total, smart, plant, knuth, [n], enc_pairs(edges))
-        impl = run(lambda: GraphOrderingPrinciple(mk_graph(n, edges), total=total, smart=smart, plant=plant,
+        impl = run(lambda: GraphOrderingPrinciple(live("g", lambda: mk_graph(n, edges)), total=total, smart=smart, plant=plant,
                                                   knuth=knuth, formula_class=fc))
         oracle = ordering_oracle(state, n, sorted({(min(e), max(e)) for e in edges}), total, smart, plant, knuth)
         return Case(suite, r, impl, oracle, cls=tag + ":" + variant, nontrivial=n > 0, info=info)
@@ -514,7 +528,7 @@ def build(suite, info):
     dag = is_topological(edges)
     if suite == "o_peb":
         r = req("c03_peb", cls_i, [n], enc_pairs(edges))
-        impl = run(lambda: PebblingFormula(mk_digraph(n, edges), formula_class=fc))
+        impl = run(lambda: PebblingFormula(live("g", lambda: mk_digraph(n, edges)), formula_class=fc))
         if not dag:
             return Case(suite, r, impl, None, cls=tag + ":rejected", nontrivial=False, info=info)
         return Case(suite, r, impl, dag_oracle(state, "peb", n, uedges, want_nvars=n), cls=tag + ":dag",
@@ -522,7 +536,7 @@ def build(suite, info):
     if suite == "o_stone":
         k = int(info["k"])
         r = req("c03_stone", cls_i, k, [n], enc_pairs(edges))
-        impl = run(lambda: StoneFormula(mk_digraph(n, edges), k, formula_class=fc))
+        impl = run(lambda: StoneFormula(live("g", lambda: mk_digraph(n, edges)), k, formula_class=fc))
         if not dag or k < 0:
             return Case(suite, r, impl, None, cls=tag + ":rejected", nontrivial=False, info=info)
         avail = {v: list(range(1, k + 1)) for v in range(1, n + 1)}
@@ -532,7 +546,8 @@ def build(suite, info):
     l, rr = int(info["l"]), int(info["r"])
     bedges = [tuple(e) for e in info["bedges"]]
     r = req("c03_sstone", cls_i, [n], enc_pairs(edges), [l, rr], enc_pairs(bedges))
-    impl = run(lambda: SparseStoneFormula(mk_digraph(n, edges), mk_bip(l, rr, bedges), formula_class=fc))
+    impl = run(lambda: SparseStoneFormula(live("g", lambda: mk_digraph(n, edges)), live("b", lambda: mk_bip(l, rr, bedges)),
+                                          formula_class=fc))
     if not dag or l != n:
         return Case(suite, r, impl, None, cls=tag + ":rejected", nontrivial=False, info=info)
     avail = {v: sorted({b for a, b in bedges if a == v}) for v in range(1, n + 1)}
@@ -634,6 +649,56 @@ def shuffled(rng, xs):
     xs = list(xs)
     rng.shuffle(xs)
     return xs
+
+
+def reuse_histories(rng, tier):
+    """histories of graph objects that their owner keeps editing in place: one simple graph handed to the graph ordering
+    principle in all its variants (planted included), one DAG handed to pebbling / stone formulas, a DAG and an availability
+    graph handed to the sparse stone formula -- cnfgen objects and networkx objects"""
+    out = []
+    flags = flag_combos()
+    for i in range(45 if tier == "quick" else 450):
+        form = "nx" if i % 2 else "cnfgen"
+        if i % 3 == 0:
+            n = rng.randint(3, 5)
+            value = common.gvalue("simple", n, g_random(rng, n, rng.choice([.4, .6])) or [(1, 2)])
+
+            def pick(rng, values, prev):
+                v = values["g"]
+                f = dict(rng.choice(flags))
+                if rng.random() < .4:
+                    f.update(plant=True, knuth=0)
+                return ["o_gop", dict(n=v["n"], edges=v["edges"], opb=rng.random() < .3, **f)]
+            slots = {"g": {"value": value, "form": form, "salt": rng.randint(0, 10 ** 6)}}
+            dag = ()
+        else:
+            n = rng.randint(3, 6)
+            value = common.gvalue("digraph", n, d_random(rng, n, rng.choice([.3, .5]), maxdeg=2) or [(1, 2)])
+            sparse = i % 3 == 2 and i % 4 < 2
+            r = rng.randint(2, 3)
+
+            stick = 1.0 if i % 4 < 2 else .5     # half of the histories stay with ONE family
+
+            def pick(rng, values, prev, sparse=sparse, stick=stick):
+                v = values["g"]
+                base = dict(n=v["n"], edges=v["edges"], opb=rng.random() < .3)
+                if sparse:
+                    b = values["b"]
+                    return ["o_sstone", dict(base, l=b["l"], r=b["r"], bedges=b["edges"])]
+                if (prev[0] if prev and rng.random() < stick else rng.choice(["o_peb", "o_stone"])) == "o_peb":
+                    return ["o_peb", base]
+                return ["o_stone", dict(base, k=rng.choice([1, 2, 2, 3]))]
+            slots = {"g": {"value": value, "form": form, "salt": rng.randint(0, 10 ** 6)}}
+            if sparse:
+                be = [(v, j) for v in range(1, n + 1) for j in range(1, r + 1) if rng.random() < .6 or j == (v % r) + 1]
+                slots["b"] = {"value": common.gvalue("bipartite", (n, r), be), "form": rng.choice(["cnfgen", "nx"]),
+                              "salt": rng.randint(0, 10 ** 6)}
+                # a BipartiteGraph object can only grow and the sparse mappings made from it keep a reference to it
+                # (observation O1, notes/C19.md): handed over again as it is (growth between groups: C11 graph_reuse)
+                slots["b"]["frozen"] = slots["b"]["form"] == "cnfgen"
+            dag = ("g",) if rng.random() < .85 else ()
+        out.append(common.gen_reuse_history(rng, slots, rng.randint(3, 5), pick, dag=dag))
+    return out
 
 
 def cases(ctx):
@@ -785,6 +850,9 @@ def cases(ctx):
         seen.add(c.req)
         built.append(c)
         yield c
+    # argument objects used, edited in place, used again
+    for hist in reuse_histories(common.sub_rng(seed, "C03_order-reuse"), tier):
+        yield from common.reuse_cases(hist, build, REUSE_SUITE)
     # a second interpreter mode: a stratified sample of the cases above, generated by `python -O` (-OO)
     yield from common.mode_cases(__name__, build, MODE_SUITE, built, common.sub_rng(seed, "C03_order-modes"), tier)
 
@@ -821,7 +889,7 @@ def _first_failure(items):
 def search(ctx, case):
     """the correspondence broke on `case`: look for an input on which the PROPERTY fails, first the
     case itself, then the small instances of the same family"""
-    if case.suite == MODE_SUITE:
+    if case.suite in (MODE_SUITE, REUSE_SUITE):
         r = common.run_oracle(case)
         return None if r is None else {"suite": case.suite, "info": case.info, "req": case.req, "failure": r}
     common.run_impl(case)
